@@ -383,4 +383,142 @@ theorem equiv_compact {s t : Slot} (h : Slot.Equiv s t) :
       simp only
       rw [List.take_append_of_le_length hle, List.take_append_of_le_length hle]
 
+/-! ### the capacity of the recycled backtracking stack -/
+
+/-- what `ensureTrack` preserves: the position is inside the array and the array is within a
+    non-negative limit (true after `initMatch`, kept by `growTrack`) -/
+def TrackInv (limit : Int) (len pos : Nat) : Prop := pos ≤ len ∧ (limit ≥ 0 → (len : Int) ≤ limit)
+
+/-- the new length `growTrack` aims for -/
+def newLen (limit : Int) (len : Nat) : Nat :=
+  if limit ≥ 0 ∧ (((if len * 2 = 0 then 1 else len * 2 : Nat)) : Int) > limit then limit.toNat
+  else (if len * 2 = 0 then 1 else len * 2)
+
+theorem growTrack_eq (limit : Int) (len pos : Nat) :
+    growTrack limit len pos =
+      if newLen limit len ≤ len then none else some (newLen limit len, pos + (newLen limit len - len)) := rfl
+
+theorem newLen_le_limit (limit : Int) (len : Nat) (h : limit ≥ 0) (hl : (len : Int) ≤ limit) :
+    (newLen limit len : Int) ≤ limit := by
+  unfold newLen; split <;> split <;> omega
+
+/-- below the limit (or without one) the stack can grow -/
+theorem newLen_gt (limit : Int) (len : Nat) (h : limit < 0 ∨ (len : Int) < limit) : len < newLen limit len := by
+  unfold newLen; split <;> split <;> omega
+
+/-- at the limit it cannot -/
+theorem newLen_at_limit (limit : Int) (len : Nat) (h : limit ≥ 0) (hl : (len : Int) = limit) :
+    newLen limit len ≤ len := by
+  unfold newLen; split <;> split <;> omega
+
+/-- `ensureTrack` fails exactly when the used depth plus the reserve exceeds the limit -- whatever the
+    current capacity `len` is -- and otherwise keeps the depth -/
+theorem ensureTrack_spec (limit : Int) (tc : Nat) :
+    ∀ (fuel len pos : Nat), TrackInv limit len pos → tc * 4 - pos ≤ fuel →
+      if limit ≥ 0 ∧ ((len - pos : Nat) : Int) + tc * 4 > limit then ensureTrack limit tc fuel len pos = none
+      else ∃ len' pos', ensureTrack limit tc fuel len pos = some (len', pos') ∧
+             len' - pos' = len - pos ∧ tc * 4 ≤ pos' ∧ TrackInv limit len' pos' := by
+  intro fuel
+  induction fuel with
+  | zero =>
+    intro len pos hi hf
+    unfold TrackInv at hi
+    by_cases hc : limit ≥ 0 ∧ ((len - pos : Nat) : Int) + tc * 4 > limit
+    · simp only [hc, and_self, if_true, ensureTrack]
+      have : pos < tc * 4 := by omega
+      simp [this]
+    · simp only [hc, if_false]
+      have : ¬ pos < tc * 4 := by omega
+      exact ⟨len, pos, by simp [ensureTrack, this], rfl, by omega, hi⟩
+  | succ fuel ih =>
+    intro len pos hi hf
+    simp only [ensureTrack]
+    by_cases hp : pos < tc * 4
+    · simp only [hp, if_true, growTrack_eq]
+      by_cases hg : newLen limit len ≤ len
+      · simp only [hg, if_true]
+        -- growth is impossible only at the limit
+        have hlim : limit ≥ 0 ∧ ((len - pos : Nat) : Int) + tc * 4 > limit := by
+          unfold TrackInv at hi
+          by_cases hl : limit < 0 ∨ (len : Int) < limit
+          · have := newLen_gt limit len hl; omega
+          · omega
+        simp [hlim]
+      · simp only [hg, if_false]
+        have hi' : TrackInv limit (newLen limit len) (pos + (newLen limit len - len)) := by
+          unfold TrackInv at *
+          refine ⟨by omega, fun hl => newLen_le_limit limit len hl (hi.2 hl)⟩
+        have hd : newLen limit len - (pos + (newLen limit len - len)) = len - pos := by
+          unfold TrackInv at hi; omega
+        have := ih _ _ hi' (by omega)
+        rw [hd] at this
+        exact this
+    · simp only [hp, if_false]
+      unfold TrackInv at hi
+      have : ¬ (limit ≥ 0 ∧ ((len - pos : Nat) : Int) + tc * 4 > limit) := by omega
+      simp only [this, if_false]
+      exact ⟨len, pos, rfl, rfl, by omega, hi⟩
+
+/-! ### `scanInit`, `put` -/
+
+theorem view_reset (b : Builder) (text : Option Nat) (ts : Int) :
+    (b.reset text ts).view = List.replicate b.slots.length (0, []) := by
+  unfold Builder.reset Builder.view Slot.live
+  simp only [List.map_map]
+  apply List.ext_getElem
+  · simp
+  · intro i h1 h2; simp
+
+theorem view_new (n : Nat) (text : Option Nat) (ts : Int) :
+    (Builder.new n text ts).view = List.replicate n (0, []) := by
+  unfold Builder.new Builder.view Slot.live
+  simp only [List.map_map]
+  apply List.ext_getElem
+  · simp
+  · intro i h1 h2; simp
+
+theorem runInv_fresh (re : Re) : RunInv re Runner.fresh := by
+  constructor
+  · intro h; simp [Runner.fresh] at h
+  · intro m h; simp [Runner.fresh] at h
+
+theorem poolInv_fresh (re : Re) : PoolInv re Runner.fresh :=
+  ⟨rfl, rfl, by intro m h; simp [Runner.fresh] at h, runInv_fresh re⟩
+
+/-- the observable state after `scanInit`, written out: nothing of the incoming runner is left in it
+    except the selected program -/
+theorem observe_scanInit (re : Re) (a : ScanArgs) (r : Runner) (h : RunInv re r) :
+    observe (scanInit re a r) =
+      { code := r.code, debug := re.debug, runtextstart := a.textstart, runtext := some a.rt,
+        runtextpos := a.textstart, runtextend := a.rtLen, trackUsed := [], stackUsed := [], crawlUsed := [],
+        runtrackcount := re.trackCount,
+        matchView := some (List.replicate re.capsize (0, []), false, a.textstart, a.textInfo),
+        ignoreTimeout := a.noTimeout, timeout := a.timeout,
+        deadline := if a.noTimeout then none else some a.newDeadline } := by
+  obtain ⟨htc, hm⟩ := h
+  have hview : (match r.runmatch with
+      | none => Builder.new re.capsize a.textInfo a.textstart
+      | some m => m.reset a.textInfo a.textstart).view = List.replicate re.capsize (0, []) := by
+    cases hr : r.runmatch with
+    | none => exact view_new _ _ _
+    | some m => simp only; rw [view_reset, hm m hr]
+  have hflags : ∀ m : Builder, (m.reset a.textInfo a.textstart).balancing = false ∧
+      (m.reset a.textInfo a.textstart).textstart = a.textstart ∧ (m.reset a.textInfo a.textstart).text = a.textInfo :=
+    fun m => ⟨rfl, rfl, rfl⟩
+  have hvs : ∀ m, r.runmatch = some m →
+      ({ slots := List.map (fun s => ({ count := 0, arr := s.arr } : Slot)) m.slots, balancing := false,
+         textstart := a.textstart, text := a.textInfo } : Builder).view = List.replicate re.capsize (0, []) := by
+    intro m hr
+    have := view_reset m a.textInfo a.textstart
+    rw [hm m hr] at this
+    simpa [Builder.reset] using this
+  have hvn : (Builder.new re.capsize a.textInfo a.textstart).view = List.replicate re.capsize (0, []) := view_new _ _ _
+  cases hal : r.allocated <;> cases hto : a.noTimeout <;> cases hr : r.runmatch <;>
+    simp [scanInit, initMatch, observe, hal, hto, hr, hvn, Builder.reset, Builder.new, List.drop_length] <;>
+    first
+      | exact hvs _ hr
+      | (refine ⟨?_, ?_⟩ <;> first | exact htc hal | exact hvs _ hr | (simpa [Builder.new] using hvn))
+      | (simpa [Builder.new] using hvn)
+      | exact htc hal
+
 end RegexVerif.Lemmas.RunnerReuse
